@@ -45,16 +45,20 @@ def readAt (obj : Bytes) (i : Nat) : Out UInt8 :=
 def writeAt (buf : Bytes) (i : Nat) (v : UInt8) : Out Bytes :=
   if i < buf.length then .val (buf.set i v) else .ub .bufferOverflow
 
-/-- `memcpy(dst + off, src, n)`: bytes `i, i+1, …` of `src` to `dst[off+i …]` (`n` more to go) -/
-def memcpyLoop (src : Bytes) (off : Nat) : (n i : Nat) → Bytes → Out Bytes
-  | 0, _, dst => .val dst
-  | n + 1, i, dst => do
-    let b ← readAt src i
-    let dst ← writeAt dst (off + i) b
-    memcpyLoop src off n (i + 1) dst
+/-- `memcpy(p, src, n)` where `p` points at the start of `dstTail` (the rest of the destination
+    object): byte `i` of `src` is read, then stored to `p[i]`, for `i = 0 … n-1` -/
+def copyInto : (src : Bytes) → (n : Nat) → (dstTail : Bytes) → Out Bytes
+  | _, 0, dstTail => .val dstTail
+  | [], _ + 1, _ => .ub .outOfBounds
+  | _ :: _, _ + 1, [] => .ub .bufferOverflow
+  | b :: src, n + 1, _ :: dstTail => do
+    let r ← copyInto src n dstTail
+    .val (b :: r)
 
-def memcpyTo (dst : Bytes) (off : Nat) (src : Bytes) (n : Nat) : Out Bytes :=
-  memcpyLoop src off n 0 dst
+/-- `memcpy(dst + off, src, n)` -/
+def memcpyTo (dst : Bytes) (off : Nat) (src : Bytes) (n : Nat) : Out Bytes := do
+  let r ← copyInto src n (dst.drop off)
+  .val (dst.take off ++ r)
 
 /-- `strlen(s)` where `s` points at the start of the object `obj` (no NUL inside ⇒ over-read) -/
 def cstrlen : Bytes → Out Nat
@@ -108,13 +112,13 @@ def resolveSpec (pm : Nat) (dir path : Bytes) : Option Bytes :=
 /-! ### strcpy into a `char[PATH_MAX]` (every path call copies the resolved path once more) -/
 
 /-- `strcpy(dst, src)`: copy bytes of `src` up to and including the first NUL -/
-def strcpyLoop : (src : Bytes) → (i : Nat) → Bytes → Out Bytes
-  | [], _, _ => .ub .outOfBounds
-  | b :: rest, i, dst => do
-    let dst ← writeAt dst i b
-    if b = 0 then .val dst else strcpyLoop rest (i + 1) dst
-
-def strcpy (dst src : Bytes) : Out Bytes := strcpyLoop src 0 dst
+def strcpy : (dst src : Bytes) → Out Bytes
+  | _, [] => .ub .outOfBounds            -- no NUL in the source object
+  | [], _ :: _ => .ub .bufferOverflow
+  | _ :: dst, b :: src =>
+    if b = 0 then .val (b :: dst) else do
+    let r ← strcpy dst src
+    .val (b :: r)
 
 /-! ### the path calls -/
 
